@@ -658,6 +658,9 @@ func (ra *recAnalysis) guardOf(e *recEdge, comp map[*ssa.Function]bool) string {
 	if g := ascendingParamGuard(e); g != "" {
 		return g
 	}
+	if g := prefixSelectorGuard(e); g != "" {
+		return g
+	}
 	for _, blk := range fn.Blocks {
 		iff, ok := blk.Instrs[len(blk.Instrs)-1].(*ssa.If)
 		if !ok {
@@ -1214,6 +1217,136 @@ func constantSelectorGuard(e *recEdge) string {
 		}
 		if armFound && !selfInArm {
 			return "G3: alias with the constant selector " + k.Value.ExactString() + " whose arm does not recurse"
+		}
+	}
+	return ""
+}
+
+// prefixSelectorGuard (G3b): self calls that re-enter the function with a string selector - a constant, or "P"+x - for
+// a parameter the function selects on. Each self call is a node: the constants K of the `param == K` tests through
+// which its arm is entered, and the pattern it passes on. Site A can be followed by site B when one of B's constants
+// fits A's pattern (equal to the constant, starting with the prefix; a site outside any constant-selected arm fits
+// every pattern, an argument of another shape fits every site). A site that lies on no cycle of this graph cannot
+// recur for ever: aliases of aliases resolve after finitely many steps.
+func prefixSelectorGuard(e *recEdge) string {
+	if e.from != e.to || e.site == nil {
+		return ""
+	}
+	fn := e.to
+	for i := range e.site.Common().Args {
+		if i >= len(fn.Params) {
+			continue
+		}
+		p := fn.Params[i]
+		if bt, ok := p.Type().Underlying().(*types.Basic); !ok || bt.Info()&types.IsString == 0 {
+			continue
+		}
+		armConsts := func(b *ssa.BasicBlock) []string {
+			for d := b; d != nil; d = d.Idom() {
+				if len(d.Preds) == 0 {
+					break
+				}
+				var ks []string
+				all := true
+				for _, pred := range d.Preds {
+					bo, eq, isEq := core.EqBranch(pred)
+					if !isEq || pred.Succs[eq] != d || pred.Succs[0] == pred.Succs[1] {
+						all = false
+						break
+					}
+					var other ssa.Value
+					switch {
+					case bo.X == ssa.Value(p):
+						other = bo.Y
+					case bo.Y == ssa.Value(p):
+						other = bo.X
+					}
+					if other == nil {
+						all = false
+						break
+					}
+					ko, isK := other.(*ssa.Const)
+					if !isK || ko.Value == nil || ko.Value.Kind() != constant.String {
+						all = false
+						break
+					}
+					ks = append(ks, constant.StringVal(ko.Value))
+				}
+				if all {
+					return ks
+				}
+			}
+			return nil
+		}
+		type node struct {
+			call   ssa.CallInstruction
+			consts []string // nil: not in a constant-selected arm
+			kind   int      // 0 unknown argument, 1 constant, 2 prefix
+			text   string
+		}
+		var nodes []*node
+		var self *node
+		for _, b := range fn.Blocks {
+			for _, in := range b.Instrs {
+				if core.StaticCallee(in) != fn {
+					continue
+				}
+				ci := in.(ssa.CallInstruction)
+				n := &node{call: ci, consts: armConsts(b)}
+				arg := ci.Common().Args[i]
+				if k, ok := arg.(*ssa.Const); ok && k.Value != nil && k.Value.Kind() == constant.String {
+					n.kind, n.text = 1, constant.StringVal(k.Value)
+				} else if cat, ok := arg.(*ssa.BinOp); ok && cat.Op == token.ADD {
+					if k, ok := cat.X.(*ssa.Const); ok && k.Value != nil && k.Value.Kind() == constant.String && constant.StringVal(k.Value) != "" {
+						n.kind, n.text = 2, constant.StringVal(k.Value)
+					}
+				}
+				nodes = append(nodes, n)
+				if in == e.site.(ssa.Instruction) {
+					self = n
+				}
+			}
+		}
+		if self == nil || self.kind == 0 {
+			continue
+		}
+		follows := func(a, b *node) bool {
+			if a.kind == 0 || b.consts == nil {
+				return true
+			}
+			for _, k := range b.consts {
+				if (a.kind == 1 && k == a.text) || (a.kind == 2 && strings.HasPrefix(k, a.text)) {
+					return true
+				}
+			}
+			return false
+		}
+		// does self reach itself?
+		seen := map[*node]bool{}
+		var reach func(n *node) bool
+		reach = func(n *node) bool {
+			for _, m := range nodes {
+				if !follows(n, m) {
+					continue
+				}
+				if m == self {
+					return true
+				}
+				if !seen[m] {
+					seen[m] = true
+					if reach(m) {
+						return true
+					}
+				}
+			}
+			return false
+		}
+		if !reach(self) {
+			what := "constant " + fmt.Sprintf("%q", self.text)
+			if self.kind == 2 {
+				what = "constant prefix " + fmt.Sprintf("%q", self.text)
+			}
+			return "G3b: alias by the " + what + ": no chain of selector-matched self calls leads back to this call"
 		}
 	}
 	return ""
